@@ -29,6 +29,16 @@ type Analysis struct {
 	D     map[ssa.Value]bool // destination-derived values
 	DF    map[string]bool    // struct fields that hold a destination (Type.field)
 	retD  map[*ssa.Function]map[int]bool
+	// closure mode (SitesWhere): the error value being followed and the
+	// captured cells it was parked in (checked in the parent afterwards)
+	curErr   map[ssa.Value]bool
+	dfMemo   map[*ssa.Function]int
+	cellReqs []cellReq
+}
+
+type cellReq struct {
+	fn  *ssa.Function
+	idx int
 }
 
 func New(p *load.Program, cg *callgraph.Graph, scope map[*ssa.Function]bool) *Analysis {
@@ -348,6 +358,239 @@ func (a *Analysis) Sites(in map[*ssa.Function]bool) []*Site {
 	return out
 }
 
+// SitesWhere enumerates and decides the calls selected by match (calls that
+// return an error but need not be destination writes).  A closure without an
+// error result may park the error in a captured variable, provided the
+// function that creates the closure examines that variable before it
+// returns or starts the next iteration.
+func (a *Analysis) SitesWhere(in map[*ssa.Function]bool, match func(fn *ssa.Function, ci ssa.CallInstruction) bool) []*Site {
+	var funcs []*ssa.Function
+	for f := range in {
+		funcs = append(funcs, f)
+	}
+	sort.Slice(funcs, func(i, j int) bool { return load.FuncName(funcs[i]) < load.FuncName(funcs[j]) })
+	var out []*Site
+	for _, fn := range funcs {
+		counter := map[string]int{}
+		for _, b := range fn.Blocks {
+			for _, ins := range b.Instrs {
+				ci, ok := ins.(ssa.CallInstruction)
+				if !ok || errIndex(ci.Common().Signature()) < 0 || !match(fn, ci) {
+					continue
+				}
+				name := prov.CalleeName(ci.Common())
+				counter[name]++
+				s := &Site{Fn: fn, Call: ci, Pos: a.P.InstrPos(ins),
+					Key: fmt.Sprintf("%s:call#%s#%d", load.FuncName(fn), name, counter[name])}
+				a.curErr = map[ssa.Value]bool{}
+				a.cellReqs = nil
+				a.decide(s)
+				if s.OK {
+					for _, cr := range a.cellReqs {
+						if bad := a.cellExaminedInParent(cr.fn, cr.idx); bad != "" {
+							s.OK = false
+							s.How = "error parked in a captured variable, but " + bad
+						} else {
+							s.How += "; parked in a captured variable that the enclosing function examines"
+						}
+					}
+				}
+				a.curErr = nil
+				a.cellReqs = nil
+				out = append(out, s)
+			}
+		}
+	}
+	return out
+}
+
+// DataFallible: fn can return a non-nil error that does not stem from a write
+// to a non-module destination (a constructed error, a sentinel, the error of
+// a non-writing library call, or the error of a module callee that is itself
+// data-fallible).  Writes into in-memory sinks cannot fail, so this is what
+// is left to lose when the sink is a buffer.
+func (a *Analysis) DataFallible(fn *ssa.Function) bool {
+	if a.dfMemo == nil {
+		a.dfMemo = map[*ssa.Function]int{}
+	}
+	switch a.dfMemo[fn] {
+	case 1:
+		return true
+	case 2, 3: // 3 = in progress: assume not (least fixpoint)
+		return false
+	}
+	a.dfMemo[fn] = 3
+	res := false
+	ridx := errIndex(fn.Signature)
+	if ridx < 0 || len(fn.Blocks) == 0 {
+		a.dfMemo[fn] = 2
+		if len(fn.Blocks) == 0 && ridx >= 0 {
+			a.dfMemo[fn] = 1
+			return true
+		}
+		return false
+	}
+	var src func(v ssa.Value, seen map[ssa.Value]bool) bool
+	src = func(v ssa.Value, seen map[ssa.Value]bool) bool {
+		if seen[v] {
+			return false
+		}
+		seen[v] = true
+		switch x := v.(type) {
+		case *ssa.Const:
+			return false
+		case *ssa.Phi:
+			for _, e := range x.Edges {
+				if src(e, seen) {
+					return true
+				}
+			}
+			return false
+		case *ssa.Extract:
+			return src(x.Tuple, seen)
+		case *ssa.Call:
+			if callee := x.Call.StaticCallee(); callee != nil && a.P.InModule(callee) {
+				return a.DataFallible(callee)
+			}
+			if a.IsDestWrite(x) {
+				return false
+			}
+			return true
+		}
+		return true
+	}
+	for _, b := range fn.Blocks {
+		if r, ok := b.Instrs[len(b.Instrs)-1].(*ssa.Return); ok && ridx < len(r.Results) {
+			if src(r.Results[ridx], map[ssa.Value]bool{}) {
+				res = true
+			}
+		}
+	}
+	if res {
+		a.dfMemo[fn] = 1
+	} else {
+		a.dfMemo[fn] = 2
+	}
+	return res
+}
+
+// cellAddr: the captured variable (free variable of a closure) a store goes to.
+func freeVarIndex(fn *ssa.Function, addr ssa.Value) int {
+	for i, fv := range fn.FreeVars {
+		if ssa.Value(fv) == addr {
+			return i
+		}
+	}
+	return -1
+}
+
+// parkedBefore: a store of the followed error into a captured variable of fn
+// whose block dominates b.
+func (a *Analysis) parkedBefore(fn *ssa.Function, b *ssa.BasicBlock) int {
+	for _, bb := range fn.Blocks {
+		if bb != b && !bb.Dominates(b) {
+			continue
+		}
+		for _, in := range bb.Instrs {
+			if st, ok := in.(*ssa.Store); ok && a.curErr[st.Val] {
+				if i := freeVarIndex(fn, st.Addr); i >= 0 {
+					return i
+				}
+			}
+		}
+	}
+	return -1
+}
+
+// cellExaminedInParent: in the function that creates closure fn, every path
+// from the creation of the closure to a return (or back to the creation)
+// passes a nil test of the captured variable whose failing edge fails.
+func (a *Analysis) cellExaminedInParent(fn *ssa.Function, idx int) string {
+	parent := fn.Parent()
+	if parent == nil {
+		return "the function is not a closure"
+	}
+	found := false
+	for _, b := range parent.Blocks {
+		for i, in := range b.Instrs {
+			mc, ok := in.(*ssa.MakeClosure)
+			if !ok || mc.Fn != ssa.Value(fn) || idx >= len(mc.Bindings) {
+				continue
+			}
+			found = true
+			cell := mc.Bindings[idx]
+			isTest := func(ifi *ssa.If) (bool, *ssa.BasicBlock) {
+				bo, ok := ifi.Cond.(*ssa.BinOp)
+				if !ok || (bo.Op != token.NEQ && bo.Op != token.EQL) {
+					return false, nil
+				}
+				ld := bo.X
+				if isNil(bo.X) {
+					ld = bo.Y
+				} else if !isNil(bo.Y) {
+					return false, nil
+				}
+				u, ok := ld.(*ssa.UnOp)
+				if !ok || u.Op != token.MUL || u.X != cell {
+					return false, nil
+				}
+				nonNil := ifi.Block().Succs[0]
+				if bo.Op == token.EQL {
+					nonNil = ifi.Block().Succs[1]
+				}
+				return true, nonNil
+			}
+			type item struct {
+				b    *ssa.BasicBlock
+				from int
+			}
+			seen := map[*ssa.BasicBlock]bool{}
+			stack := []item{{b, i + 1}}
+			for len(stack) > 0 {
+				it := stack[len(stack)-1]
+				stack = stack[:len(stack)-1]
+				done := false
+				for j := it.from; j < len(it.b.Instrs) && !done; j++ {
+					switch x := it.b.Instrs[j].(type) {
+					case *ssa.If:
+						if ok, nonNil := isTest(x); ok {
+							save := a.curErr
+							a.curErr = nil
+							bad := a.failsOnly(parent, nonNil, x.Block())
+							a.curErr = save
+							if bad != "" {
+								return "the enclosing function tests it and the failing edge " + bad
+							}
+							done = true
+						}
+					case *ssa.Return:
+						return fmt.Sprintf("the enclosing function returns at %s without examining it", a.P.InstrPos(x))
+					case *ssa.Panic:
+						done = true
+					case *ssa.MakeClosure:
+						if x == mc {
+							return fmt.Sprintf("the next closure is created at %s before it is examined", a.P.InstrPos(x))
+						}
+					}
+				}
+				if done {
+					continue
+				}
+				for _, s := range it.b.Succs {
+					if !seen[s] {
+						seen[s] = true
+						stack = append(stack, item{s, 0})
+					}
+				}
+			}
+		}
+	}
+	if !found {
+		return "the closure's creation site was not found"
+	}
+	return ""
+}
+
 func (a *Analysis) decide(s *Site) {
 	call, ok := s.Call.(*ssa.Call)
 	if !ok {
@@ -395,10 +638,42 @@ func (a *Analysis) follow(fn *ssa.Function, ev ssa.Value, seen map[ssa.Value]boo
 		return 0, ""
 	}
 	seen[ev] = true
+	if a.curErr != nil {
+		a.curErr[ev] = true
+	}
 	ridx := errIndex(fn.Signature)
 	tested, returned := false, false
 	for _, ref := range *ev.Referrers() {
 		switch x := ref.(type) {
+		case *ssa.Store:
+			// the error is assigned to a variable that lives in memory (captured
+			// by a closure): the loads that follow in the same block, up to the
+			// next store to it, are the same value
+			if a.curErr == nil || x.Val != ev {
+				continue
+			}
+			after := false
+			for _, in := range x.Block().Instrs {
+				if in == ssa.Instruction(x) {
+					after = true
+					continue
+				}
+				if !after {
+					continue
+				}
+				if st2, ok := in.(*ssa.Store); ok && st2.Addr == x.Addr {
+					break
+				}
+				if u, ok := in.(*ssa.UnOp); ok && u.Op == token.MUL && u.X == x.Addr {
+					v, how := a.follow(fn, u, seen)
+					if v == 2 {
+						return 2, how
+					}
+					if v == 1 {
+						tested = true
+					}
+				}
+			}
 		case *ssa.Return:
 			if ridx >= 0 && ridx < len(x.Results) && x.Results[ridx] == ev {
 				returned = true
@@ -471,6 +746,12 @@ func (a *Analysis) failsOnly(fn *ssa.Function, from, origin *ssa.BasicBlock) str
 		switch t := b.Instrs[len(b.Instrs)-1].(type) {
 		case *ssa.Return:
 			if ridx < 0 {
+				if a.curErr != nil && fn.Parent() != nil {
+					if i := a.parkedBefore(fn, b); i >= 0 {
+						a.cellReqs = append(a.cellReqs, cellReq{fn, i})
+						continue
+					}
+				}
 				return fmt.Sprintf("returns from a function without error result at %s", a.P.InstrPos(t))
 			}
 			v := t.Results[ridx]
@@ -505,6 +786,9 @@ func (a *Analysis) failsOnly(fn *ssa.Function, from, origin *ssa.BasicBlock) str
 func (a *Analysis) examinedOnAllPaths(fn *ssa.Function, call *ssa.Call, ev ssa.Value) string {
 	ridx := errIndex(fn.Signature)
 	carriers := map[ssa.Value]bool{ev: true}
+	for v := range a.curErr {
+		carriers[v] = true
+	}
 	// phis fed by ev
 	changed := true
 	for changed {
